@@ -187,6 +187,11 @@ class Program:
 
         self.inlined = inline_new_helpers(self)
         if self.inlined:
+            # what the expansion leaves behind (a loop over a dict literal's items, a conditional self-assignment ...) is
+            # brought to the rules' vocabulary by the statement-level rewrites once more
+            from .normalize import post_inline
+
+            self.normalised += post_inline(self.modules)
             self.funcs, self.classes, self.by_short, self.class_by_name = {}, {}, {}, {}
             for mi in self.modules.values():
                 mi.imports, mi.funcs, mi.classes, mi.consts = {}, {}, {}, {}
